@@ -2,7 +2,7 @@
 import re
 
 from .core import RuleResult
-from .facts import fn_key, fn_loc, walk, strip, peel_refs, pat_bindings, Render
+from .facts import fn_file, fn_key, fn_loc, walk, strip, peel_refs, pat_bindings, Render
 from .sym import Tracer, Term, Cmp, k, as_term, as_poly, walk_terms, Poly
 
 LEVEL = ("Static analysis of linfa-trees: (route) the comparison that sends a training row to the left child when the child "
@@ -486,5 +486,154 @@ def rule_importance(ctx):
     return res.finish(2)
 
 
+def rule_rowindex(ctx):
+    """sample weights are looked up by the sample's row index: an enumerate() index taken after a filter / skip / rev
+    counts positions of the shortened sequence (class frequencies of a masked node would use the weights of rows 0..k)"""
+    from . import rowindex
+    res = RuleResult("R-C14-rowindex", "every weight_for(i) in the dataset helpers and in linfa-trees receives a row index: an enumerate() index is taken before any filter / skip / step_by / rev of the sample sequence")
+    F = ctx.facts()
+    fns = [f for f in F.all_fns() if (f["d"]["krate"] == "linfa" and fn_file(f).startswith("src/dataset/")) or f["d"]["krate"] == "linfa_trees"]
+    n = 0
+    for fn in fns:
+        srcs = None
+        for call, loc in rowindex.accessor_sites(fn):
+            if srcs is None:
+                srcs = rowindex.enumerate_sources(fn)
+            n += 1
+            key = fn_key(fn)
+            if loc is None or loc not in srcs:
+                res.instance("%s : weight_for(..) #%d, index not produced by enumerate()" % (key, n))
+                res.ok()
+                continue
+            bad = [a for a in srcs[loc] if a in rowindex.REINDEXING]
+            res.instance("%s : weight_for(enumerate index), sequence before enumerate: %s" % (key, " . ".join(srcs[loc]) or "<source>"))
+            if bad:
+                res.violate("%s : index-after-%s" % (key, bad[0]), "the index handed to weight_for counts positions of a sequence that was already shortened or reordered by `%s`: it is not the sample's row index, so the sample gets the weight of another row" % bad[0], fn_loc(fn, call["ln"]))
+            else:
+                res.ok()
+    if n == 0:
+        res.missing_anchor("weight_for call sites in the dataset helpers / linfa-trees")
+    return res.finish(2)
+
+
+def rule_impurity(ctx):
+    """Impurity (gini, entropy) is a function of the class proportions: multiplying every class weight by the same
+    factor leaves it unchanged.  A class weight (degree 1 in that factor) may therefore be compared with zero only
+    (the 0 * log 0 guard); compared with any other constant, classes of small positive weight are dropped or kept
+    depending on the scale of the sample weights.  Proportions (weight / total, degree 0) may be compared freely."""
+    res = RuleResult("R-C14-impurity", "gini_impurity and entropy compare a class weight with zero only; thresholds apply to proportions (scale invariance in the sample weights)")
+    F = ctx.facts()
+    fns = [f for f in F.all_fns() if f["d"]["krate"] == "linfa_trees" and f["d"]["name"] in ("gini_impurity", "entropy")]
+    if len(fns) < 2:
+        res.missing_anchor("gini_impurity / entropy of linfa-trees (found %d)" % len(fns))
+    for fn in fns:
+        c = fn["crate"]
+        key = fn_key(fn)
+        r = Render(c)
+        env = {}      # local -> degree (1 = a weight or a sum of weights, 0 = a proportion / pure number)
+        inits = {}
+        for n in walk(fn["body"]):
+            if n.get("k") == "LetStmt" and n.get("init") is not None and n["pat"].get("k") == "Bind":
+                inits[n["pat"]["local"]] = n["init"]
+        for p_ in fn["params"]:
+            for b in pat_bindings(p_):
+                env[b["local"]] = 1
+
+        def deg(e, depth=0):
+            """degree of a scalar / of the items of an iterator expression; None = constant or unknown"""
+            e = peel_refs(e)
+            k_ = e.get("k")
+            if k_ == "Lit":
+                return None
+            if k_ == "Path" and "local" in e:
+                if e["local"] in env:
+                    return env[e["local"]]
+                if e["local"] in inits and depth < 4:
+                    env[e["local"]] = deg(inits[e["local"]], depth + 1)
+                    return env[e["local"]]
+                return None
+            if k_ == "Binary":
+                a, b = deg(e["l"], depth), deg(e["r"], depth)
+                if e["op"] == "*":
+                    return (a or 0) + (b or 0) if (a is not None or b is not None) else None
+                if e["op"] == "/":
+                    return (a or 0) - (b or 0) if (a is not None or b is not None) else None
+                return a if a is not None else b
+            if k_ == "Unary":
+                return deg(e["e"], depth)
+            if k_ == "Call":
+                f = strip(e["f"])
+                d = c.dfn(f.get("def")) if f.get("k") == "Path" else None
+                if d and d["name"] == "ordered_weights":
+                    return 1
+                if e["args"]:
+                    return deg(e["args"][0], depth)
+                return None
+            if k_ == "MethodCall":
+                nm = e["name"]
+                if nm in ("values", "iter", "into_iter", "sum", "copied", "cloned", "abs", "max", "min", "filter", "product", "fold", "unwrap", "unwrap_or"):
+                    return deg(e["recv"], depth)
+                if nm in ("log2", "ln", "log10", "exp"):
+                    return 0
+                if nm == "map" and e["args"] and strip(e["args"][0]).get("k") == "Closure":
+                    clo = strip(e["args"][0])
+                    d0 = deg(e["recv"], depth)
+                    for b in pat_bindings(clo["params"][0]):
+                        env[b["local"]] = d0
+                    return deg(clo["body"], depth)
+                if nm in ("powi", "powf") and e["args"]:
+                    a = deg(e["recv"], depth)
+                    ex = peel_refs(e["args"][0])
+                    try:
+                        return None if a is None else int(a * float(ex["v"])) if ex.get("k") == "Lit" else None
+                    except ValueError:
+                        return None
+                return deg(e["recv"], depth)
+            if k_ == "If":
+                a = deg(e["then"], depth)
+                return a if a is not None else (deg(e["else"], depth) if e.get("else") else None)
+            if k_ == "Block" and e.get("e"):
+                return deg(e["e"], depth)
+            if k_ == "Field":
+                return deg(e["e"], depth)
+            return None
+        # bind closure parameters along the chains (map / filter / fold ...), in source order
+        for n in walk(fn["body"]):
+            if n.get("k") == "MethodCall" and n["args"] and strip(n["args"][-1]).get("k") == "Closure":
+                clo = strip(n["args"][-1])
+                d0 = deg(n["recv"])
+                if clo["params"]:
+                    for b in pat_bindings(clo["params"][-1]):
+                        env.setdefault(b["local"], d0)
+        n_cmp = 0
+        for n in walk(fn["body"]):
+            if n.get("k") != "Binary" or n["op"] not in ("<", "<=", ">", ">=", "==", "!="):
+                continue
+            for a, b in ((n["l"], n["r"]), (n["r"], n["l"])):
+                lit = peel_refs(b)
+                neg = False
+                while lit.get("k") == "Unary" and lit["op"] == "-":
+                    lit = peel_refs(lit["e"])
+                if lit.get("k") != "Lit":
+                    continue
+                try:
+                    import re as _re
+                    v = float(_re.sub(r"_?(f32|f64|usize|u8|u16|u32|u64|i8|i16|i32|i64|isize)$", "", lit["v"].replace("_", ""))) if lit.get("lk") in ("int", "float") else None
+                except ValueError:
+                    v = None
+                if v is None:
+                    continue
+                d_ = deg(a)
+                n_cmp += 1
+                res.instance("%s : comparison `%s` (degree %s against %s)" % (key, r.e(n)[:50], d_, lit["v"]))
+                if v == 0.0 or d_ in (0, None):
+                    res.ok()
+                else:
+                    res.violate("%s : weight-threshold:%s" % (key, lit["v"]), "`%s` compares a class weight (or a sum of class weights) with the constant %s: classes whose weight lies between 0 and that constant are treated like empty classes, so the impurity depends on the scale of the sample weights and is wrong for fractional weights" % (r.e(n)[:60], lit["v"]), fn_loc(fn, n["ln"]))
+        res.instance("%s : %d comparisons with constants" % (key, n_cmp))
+        res.ok()
+    return res.finish(2)
+
+
 def rules(tier):
-    return [rule_route, rule_limits, rule_weights, rule_layout, rule_importance]
+    return [rule_route, rule_limits, rule_weights, rule_layout, rule_importance, rule_rowindex, rule_impurity]
